@@ -117,9 +117,29 @@ def run(F, R):
             R.check(not bad, "R07.4", "to_value-roundtrip:" + b.impl_self, tov.where(), "to_value builds %s" % sorted(built),
                     "to_value can build %s which parse rejects (value does not round-trip)" % sorted(bad))
 
+    R.rule("R07.6", "lossy conversion on the output side (K5): ScalarType::to_value of the integer scalars widens losslessly — every integer cast in it maps "
+                    "the Rust type into a type that can represent all of its values (u64 -> i64 or i64 -> i32 would wrap)")
+    nto = 0
+    for b in parses:
+        if not re.search(INTS, b.defp):
+            continue
+        tov = F.get(b.defp.rsplit("::", 1)[0] + "::to_value")
+        if tov is None:
+            continue
+        for (bb, st, sty, dty) in narrowing_casts(tov):
+            nto += 1
+            R.violation("R07.6", "to_value-lossy-cast:%s:%s->%s" % (b.impl_self, sty, dty), "%s:%s" % (tov.file, st[2]),
+                        "to_value casts %s to %s, which cannot represent every value: large values serialise as a different number and do not coerce back" % (sty, dty))
+        R.ok("R07.6", "to_value-casts-lossless:" + b.impl_self, tov.where(), "no narrowing cast") if not narrowing_casts(tov) else None
+
     R.rule("R07.5", "parse_enum returns Ok only for a name found in EnumType::items(); enum_value emits Value::Enum from the same table")
     R.check(bool(pe.calls_to(r"EnumType::items$")) and bool(pe.calls_to(r"::find$")) and bool(pe.calls_to(r"::ok_or_else$")),
             "R07.5", "parse_enum:lookup-in-items", pe.where(), "items().iter().find(..).ok_or_else(..)", "parse_enum does not look the name up in items()")
+    pef = F.with_nested(pe)
+    fuzzy = [c for x in pef for c in x.calls() if c.callee and re.search(r"eq_ignore_ascii_case|to_lowercase|to_uppercase|to_ascii_lowercase|to_ascii_uppercase|starts_with|contains$", c.callee)]
+    exact = [c for x in pef for c in x.calls() if c.callee and re.search(r"core::str::traits::\{impl#\d+\}::eq$|cmp::impls::\{impl#\d+\}::eq$|PartialEq::eq$", c.callee)]
+    R.check(bool(exact) and not fuzzy, "R07.5", "parse_enum:exact-name-match", pe.where(), "item.name == value (exact)",
+            "parse_enum matches item names with %s: names that are not items of the enum are accepted" % sorted({c.callee.split("::")[-1] for c in fuzzy}))
     ev = F.one(r"async_graphql::resolver_utils::(r#)?enum::enum_value$", kind="fn")
     built = {a[1][3] for a in find_aggs(ev, r"async_graphql_value::ConstValue$")}
     R.check(built == {"Enum"} and bool(ev.calls_to(r"EnumType::items$")), "R07.5", "enum_value:Enum-from-items", ev.where(), "builds Value::Enum from items()",
